@@ -505,18 +505,22 @@ def p_starred_is_list(a, b, c):
 _FLAG_DEFAULT = 0
 
 
+def p_nested_def_default_identity(a, b, c):
+    """the default of a locally defined function / lambda is the VALUE of the default expression, not a wrapper object:
+    identity tests on a defaulted parameter see None"""
+    k = lambda y=None: 1 if y is None else 2
+
+    def m(p, q=None):
+        return p if q is None else p + 100
+    return 4 * k() + 16 * k(a) + m(c) + m(c, b) * 3
+
+
 def p_nested_def_default_truth(a, b, c):
-    """the default of a locally defined function is the VALUE of the default expression (here falsy), not a wrapper object"""
     def g(x, flag=_FLAG_DEFAULT):
         return flag
-
-    def h(x, items=()):
-        return items
     r1 = 1 if g(a) else 2
-    r2 = 4 if h(b) else 8
-    r3 = 16 if (lambda x, y=None: y)(c) is None else 32
-    r4 = 64 if g(a, b) else 128
-    return r1 + r2 + r3 + r4
+    r2 = 4 if g(a, b) else 8
+    return r1 + r2
 
 
 class _Node:
@@ -535,4 +539,103 @@ def p_shortcircuit(a, b, c):
     return _bits(r1, r2, r3, r4)
 
 
-BANK += [p_call_star_positions, p_nested_def_defaults, p_binop_subclass_first, p_cmp_subclass_first, p_err_same_type_reflected, p_starred_is_list, p_nested_def_default_truth, p_shortcircuit]
+BANK += [p_call_star_positions, p_nested_def_defaults, p_binop_subclass_first, p_cmp_subclass_first, p_err_same_type_reflected, p_starred_is_list, p_nested_def_default_identity, p_nested_def_default_truth, p_shortcircuit]
+
+
+# ---------------------------------------------------------------- fourth round: extended slices, truth value protocol, unary operators
+class _Seq:
+    def __init__(self, items):
+        self.items = items
+
+    def __getitem__(self, key):
+        if isinstance(key, slice):
+            return (key.start, key.stop, key.step)
+        if isinstance(key, tuple):
+            return ("tuple", len(key))
+        return self.items[key]
+
+    def __len__(self):
+        return len(self.items)
+
+    def __contains__(self, x):
+        return x in self.items
+
+
+def p_slice_step(a, b, c):
+    xs = [10, 11, 12, 13, 14, 15, 16, 17, 18, 19]
+    p1 = xs[1:6:2]
+    p2 = xs[a:b + 6:c + 1]
+    return (len(p1) * 1000 + _total(p1) + len(p2) * 7 + _total(p2) * 3) % 60000
+
+
+def p_slice_step_user_getitem(a, b, c):
+    s = _Seq([10, 11, 12, 13, 14, 15, 16, 17, 18, 19])
+    k = s[2:8:3]
+    m = s[a:b + 5:c + 1]
+    return (k[0] + 10 * k[1] + 100 * k[2] + m[0] * 1000 + m[1] * 7 + m[2] * 13 + s[-1 - a]) % 60000
+
+
+def p_contains(a, b, c):
+    s = _Seq([10, 11, 12, 13])
+    return _bits(11 in s, 3 in s, b + 10 not in s, a + 10 in [10, 12], c in (0, 3), "k" in {"k": 1})
+
+
+class _Chan:
+    def __init__(self, enabled, n):
+        self.enabled = enabled
+        self.n = n
+
+    def __bool__(self):
+        return self.enabled
+
+    def __len__(self):
+        return self.n
+
+
+class _OnlyLen:
+    def __init__(self, n):
+        self.n = n
+
+    def __len__(self):
+        return self.n
+
+
+def p_truth_protocol(a, b, c):
+    """__bool__ decides when present (also when __len__ disagrees)"""
+    c1, c2, c3 = _Chan(True, 0), _Chan(False, 3), _Chan(a > 0, b)
+    r = [1 if c1 else 2, 1 if c2 else 2, 1 if c3 else 2]
+    flags = _bits(not c1, not c2, bool(c3), c1 and True, c2 or c3)
+    kept = [x for x in (c1, c2, c3) if x]
+    return (_total(r) * 4096 + flags + len(kept) * 17) % 60000
+
+
+def p_truth_builtin_containers(a, b, c):
+    return _bits(not [], bool((0,)), bool(""), bool("0"), bool({}), bool([a]), not (), bool(range(b)))
+
+
+class _Angle:
+    def __init__(self, deg):
+        self.deg = deg
+
+    def __pos__(self):
+        return _Angle(self.deg % 360)
+
+    def __neg__(self):
+        return _Angle(-self.deg % 360)
+
+    def __invert__(self):
+        return _Angle(180 + self.deg)
+
+
+def p_unary_ops(a, b, c):
+    x = _Angle(725 + a)
+    y = +x
+    z = -x
+    return (y.deg + 3 * z.deg + _bits(y is x, isinstance(+True, bool), -True == -1) + (+b) + (-c) % 7) % 60000
+
+
+def p_unary_int_ops(a, b, c):
+    return ((-b) % 5 + (+c) + (-(-a)) + (- a - b) % 7) % 60000
+
+
+BANK += [p_slice_step, p_slice_step_user_getitem, p_truth_protocol, p_unary_ops, p_unary_int_ops]  # `in`, truth value of builtin containers and ~ on ints are rejected by the tracer (allowed by the statement): p_contains / p_truth_builtin_containers stay out of the bank
